@@ -301,4 +301,8 @@ def build(tier, repo):
                    "size reassignment raises TypeError where the model has no answer (no truncation of 2**32+k, no wrapped product)")
     chk.note_analysed("python_int_locals", mr5.int_narrowing_size_rule(r11, cs["dense.c"], cs["dense.c"].order) + mr5.int_narrowing_size_rule(r11, cs["sparse.c"], cs["sparse.c"].order))
     r11.require(4)
+    r12 = chk.rule("C15-R12", "a subscript uses the leading dimension of its own array (integer product kernel and the other hand-written kernels)",
+                   "arithmetic on 'i' matrices returns what the model computes for non-square operands too")
+    chk.note_analysed("ld_subscripts", mr5.ld_subscript_rule(r12, cs, ["base.c", "dense.c", "sparse.c", "misc_solvers.c"]))
+    r12.require(1)
     return chk
